@@ -68,14 +68,14 @@ func specIntDigit(n numberParts, k int) byte {
 	return '0'
 }
 
-//@ props C22
-//@ split
-//@ mode int
-//@ loop 1 invariant 0 <= i && i <= exp-fracSize && len(num) == intpSize+fracSize+i && (freshSlice(num) || cap(num) == len(num))
-//@ loop 1 invariant forallIn(num, 0, len(num), func(k int, e byte) bool { return e == old(specIntDigit(n, k)) })
-//@ loop 1 invariant unchangedElems(n.intp) && unchangedElems(n.frac) && unchangedElems(n.exp)
-//@ loop 2 invariant index <= i && i <= intpSize
-//@ loop 2 invariant forall(0, len(n.intp), func(k int) bool { return k < index || k >= i || n.intp[k] == '0' })
+// @ props C22
+// @ split
+// @ mode int
+// @ loop 1 invariant 0 <= i && i <= exp-fracSize && len(num) == intpSize+fracSize+i && (freshSlice(num) || cap(num) == len(num))
+// @ loop 1 invariant forallIn(num, 0, len(num), func(k int, e byte) bool { return e == old(specIntDigit(n, k)) })
+// @ loop 1 invariant unchangedElems(n.intp) && unchangedElems(n.frac) && unchangedElems(n.exp)
+// @ loop 2 invariant index <= i && i <= intpSize
+// @ loop 2 invariant forall(0, len(n.intp), func(k int) bool { return k < index || k >= i || n.intp[k] == '0' })
 func contract_normalizeToIntString(n numberParts) (s string, ok bool) {
 	requires(len(n.intp) <= 1<<30 && len(n.frac) <= 1<<30)
 	ensures(imp(len(n.intp) == 0 && len(n.frac) == 0, ok && s == "0"))
@@ -96,13 +96,13 @@ func contract_normalizeToIntString(n numberParts) (s string, ok bool) {
 // parts are views of the input, the integer part is empty (a lone 0) or starts with 1..9 and
 // consists of digits, and the sign is reported.
 //
-//@ props C22
-//@ mode int
-//@ pure bytes.TrimRight
-//@ loop 1 invariant suffixOf(s, input) && sameBase(intp, input) && 1 <= n && n <= len(intp) && len(intp)-len(s) == n
-//@ loop 1 invariant forallIn(intp, 0, n, func(k int, e byte) bool { return specIsDigit(e) })
-//@ loop 2 invariant suffixOf(s, input) && sameBase(frac, input) && 1 <= n && n <= len(frac) && len(frac)-len(s) == n
-//@ loop 3 invariant suffixOf(s, input) && sameBase(exp, input) && 0 <= n && n <= len(exp) && len(exp)-len(s) == n
+// @ props C22
+// @ mode int
+// @ pure bytes.TrimRight
+// @ loop 1 invariant suffixOf(s, input) && sameBase(intp, input) && 1 <= n && n <= len(intp) && len(intp)-len(s) == n
+// @ loop 1 invariant forallIn(intp, 0, n, func(k int, e byte) bool { return specIsDigit(e) })
+// @ loop 2 invariant suffixOf(s, input) && sameBase(frac, input) && 1 <= n && n <= len(frac) && len(frac)-len(s) == n
+// @ loop 3 invariant suffixOf(s, input) && sameBase(exp, input) && 0 <= n && n <= len(exp) && len(exp)-len(s) == n
 func contract_parseNumberParts(input []byte) (p numberParts, ok bool) {
 	ensures(imp(ok, p.neg == (input[0] == '-')))
 	ensures(imp(ok, specPartsWF(p)))
